@@ -5,6 +5,7 @@ package main
 import (
 	"encoding/json"
 	"fmt"
+	"go/token"
 	"os"
 	"path/filepath"
 	"sort"
@@ -57,6 +58,31 @@ func e2CheckLayouts(c *Ctx, rule string, sel func(name string, f *ssa.Function) 
 			r.Undecided(rule, name+": codec idiom not recognised", c.P.pos(f.Pos()), u)
 		}
 		row := rows[name]
+		if row == nil && f.Signature.Recv() == nil && !token.IsExported(f.Name()) && f.Parent() == nil {
+			// an unexported helper of codecs (ntpAddrFromBytes(data)): it has no layout of its own; what it reads is part of the
+			// schema of every codec that calls it (helper inlining), which is where it is compared with the RFC
+			callers, allCodec := 0, true
+			isCodec := map[*ssa.Function]bool{}
+			for _, g := range encs {
+				isCodec[g] = true
+			}
+			for _, g := range decs {
+				isCodec[g] = true
+			}
+			for _, g := range c.P.ModuleFuncs() {
+				allInstrs(g, func(in ssa.Instruction) {
+					if ci, ok := in.(ssa.CallInstruction); ok && ci.Common().StaticCallee() == f {
+						callers++
+						if !isCodec[g] || rows[shortName(g)] == nil {
+							allCodec = false
+						}
+					}
+				})
+			}
+			if callers > 0 && allCodec && !hasNonCallRef(f) {
+				return
+			}
+		}
 		if row == nil {
 			r.Undecided(rule, name+": codec without a reviewed layout row", c.P.pos(f.Pos()), "extracted schema: "+e2Str(ns)+" — add a row to spec/layouts.json after checking it against the RFC")
 			return
